@@ -125,6 +125,64 @@ example :
       (fun r => (sliceArrs r.2 8 r.1).head? == some 9 && (read r.2 ⟨9, 0, 5, 5⟩).length == 5) = some true := by
   decide +kernel
 
+/-! ### `Shift`, `Normalize`, `Complement` -/
+
+/-- **`Shift` and `Normalize` are fresh, refine `Loc.shift` / `Loc.normalize`, and are total** —
+the same three statements as for `Expand` (they have the same shape: `make`, element loop, `Join` /
+`Order`; a `Ranged` / `Ambiguous` that is split by an insertion inside it, and a `Ranged` that
+wraps around the origin, come back as `Join(left, right)` / `Order(left, right)` over a new
+two-element slice).  For every heap, receiver, argument, capacity policy and fuel. -/
+theorem shift_normalize_fresh (g : Grow) (i n len : Int) (k : Nat) (h : LHeap) (m : MLoc) :
+    (∀ r, shiftMem g i n k h m = some r → h <+: r.2 ∧ RefsAbove h.length r.1 ∧ Closed h.length r.2) ∧
+    (∀ r, normalizeMem g len k h m = some r → h <+: r.2 ∧ RefsAbove h.length r.1 ∧ Closed h.length r.2) :=
+  ⟨fun r he => have p := shiftMem_fresh g i n k h m r he; ⟨p.pre, p.refs, p.closed⟩,
+   fun r he => have p := normalizeMem_fresh g len k h m r he; ⟨p.pre, p.refs, p.closed⟩⟩
+
+theorem shift_normalize_refines (g : Grow) (i n len : Int) (k : Nat) {h : LHeap} {m : MLoc} {l : Loc}
+    (hl : Reads h l m) :
+    (∀ r, shiftMem g i n k h m = some r → Reads r.2 (l.shift i n) r.1) ∧
+    (∀ r, normalizeMem g len k h m = some r → Reads r.2 (l.normalize len) r.1) :=
+  ⟨fun r he => shiftMem_refines g i n k h m r l he hl,
+   fun r he => normalizeMem_refines g len k h m r l he hl⟩
+
+theorem shift_normalize_total (g : Grow) (i n len : Int) {h : LHeap} {m : MLoc} {l : Loc}
+    (hl : Reads h l m) :
+    (∃ k0 r, ∀ k, k0 ≤ k → shiftMem g i n k h m = some r) ∧
+    (∃ k0 r, ∀ k, k0 ≤ k → normalizeMem g len k h m = some r) := by
+  obtain ⟨k1, r1, e1⟩ := shiftMem_total g i n l h m hl
+  obtain ⟨k2, r2, e2⟩ := normalizeMem_total g len l h m hl
+  exact ⟨⟨k1, r1, fun k hk => shiftMem_le g i n k1 k hk h m r1 e1⟩,
+    ⟨k2, r2, fun k hk => normalizeMem_le g len k2 k hk h m r2 e2⟩⟩
+
+/-- non-vacuity: `5..12` shifted by an insertion of 3 at 8 is split into a NEW two-part join;
+`join(3..9, 15..22)` normalized to length 20 wraps its second part: a new three-part array -/
+example :
+    ((shiftMem (fun _ _ => 0) 8 3 3 [] (.leaf (.ranged 4 12 true false))).map fun r =>
+      (readLoc 8 r.2 r.1).beq (.joined [.ranged 4 8 true false, .ranged 11 15 false false]) &&
+      sliceArrs r.2 8 r.1 == [2]) = some true ∧
+    ((normalizeMem (fun _ _ => 0) 20 3 [[.leaf (.ranged 2 9 false false), .leaf (.ranged 14 22 false false)]]
+        (.joined ⟨0, 0, 2, 2⟩)).map fun r =>
+      (readLoc 8 r.2 r.1).beq (Loc.normalize (.joined [.ranged 2 9 false false, .ranged 14 22 false false]) 20) &&
+      (sliceArrs r.2 8 r.1).all (1 ≤ ·)) = some true := by
+  decide +kernel
+
+/-- **`Complement` allocates nothing and SHARES**: the result reads as `Loc.complement`, in the
+same heap; wrapping a `Joined` / `Ordered` keeps the receiver's own slice header inside the result
+(`Complemented{joined}`), unwrapping returns the inner location itself.  So `Complement` is pure
+(it writes nothing) but its result is NOT fresh — which is harmless only because the one writer,
+`asComplete`, runs on the result of `Expand`. -/
+theorem complement_shares {h : LHeap} {l : Loc} {m : MLoc} (hl : Reads h l m) :
+    Reads h l.complement (complementMem m) ∧
+    (∀ s, complementMem (.joined s) = .compl (.joined s)) ∧
+    (∀ s, complementMem (.ordered s) = .compl (.ordered s)) ∧
+    (∀ m', complementMem (.compl m') = m') :=
+  ⟨complementMem_refines hl, fun _ => rfl, fun _ => rfl, fun _ => rfl⟩
+
+/-- … not fresh: the complement of the example refers to array 3 of the receiver -/
+example : Reads exMem.2 exLoc.complement (complementMem exMem.1) ∧
+    ¬ RefsAbove exMem.2.length (complementMem exMem.1) :=
+  ⟨(complement_shares (allocLoc_reads exLoc _).2).1, by show ¬ ((4 : Nat) ≤ 3); decide⟩
+
 /-! ### the call site of `asComplete` -/
 
 /-- **FRAME at the only call site of `asComplete`** (`gts.Slice`, sequence.go:276-279), with the
